@@ -6,6 +6,7 @@ From V Require Import Base.Strings Base.Result Model.Registry Model.Settings Mod
   Checkers.Parse Checkers.Sem Model.Unparse Model.UnparseClosed
   Proofs.ParseTy Proofs.ParseItem Proofs.ParseMod Proofs.ArityProofs Proofs.ParseClosed.
 From V Require Model.Shape.
+  Proofs.GenProofs Proofs.SortDedup Proofs.ClosedProofs Model.Sized Proofs.SizedProofs.
 Import ListNotations.
 
 (** every emitted item is the IR of an item-eligible registry entry, sitting at that entry's path *)
@@ -197,3 +198,51 @@ Theorem C02_closedb_emitted :
   exists pm, parse_module toks = Some pm /\ closedb (s_root s) pm = true.
 Proof. exact emitted_closed. Qed.
 Print Assumptions C02_closedb_emitted.
+(** ** indirection clause (Model/Sized.v, Proofs/SizedProofs.v) - PARTIAL.
+
+    [item_edge s m pa pb]: a field of the item at [pa] that is not wrapped in [Box] mentions the
+    item path [pb] by value ([bv_subpaths]: tuples, arrays, compact wrappers and the arguments of
+    [Option] / [Result] / [Range] / [RangeInclusive] are traversed; [Vec], bit vectors, the
+    arguments of every other path and generic parameters cut).
+    [bv_ranked r s rank]: a rank on the registry's ids that decreases along every by-value step
+    of the type graph (weakly through [Cow]'s look-through, tuples, arrays, compact wrappers and
+    the arguments of transparent or substituted types, strictly through a field whose recorded
+    type name does not contain [Box<]); sequences, bit sequences, boxed fields and the arguments
+    of all other types are unconstrained; entries with the same path have the same rank.
+
+    Then [rank_path] (the rank of the first struct / enum entry with that path) strictly
+    decreases along every edge of the generated items, so no walk returns to its start.
+
+    Missing for DESIGN's C02_sized: (1) the derivation of such a rank from the decidable
+    condition "every cycle of the registry's type graph passes through a Sequence, a [Box]-named
+    field or a heap prelude collection" (a rank check in the style of [rank_ok], with its
+    soundness proof); (2) generic parameters are opaque: a cycle that exists only after
+    instantiation ([B { a: A<B> }] with [A<T> { x: T }]) is not an [item_edge] cycle;
+    (3) the clause "same path => same rank" is an extra hypothesis (it follows from
+    [skeleton_consistent] only for the shape, not for the ids). *)
+Theorem C02_sized_rank_partial :
+  forall r s rank, root_fresh s -> bv_ranked r s rank ->
+  forall teq m, generate r s teq = Ok m ->
+  forall pa pb, item_edge s m pa pb -> (rank_path r rank pb < rank_path r rank pa)%nat.
+Proof. exact sized_rank. Qed.
+Print Assumptions C02_sized_rank_partial.
+
+Theorem C02_sized_partial :
+  forall r s rank, root_fresh s -> bv_ranked r s rank ->
+  forall teq m, generate r s teq = Ok m ->
+  forall n p, ~ walk (item_edge s m) n p p.
+Proof. exact sized_acyclic. Qed.
+Print Assumptions C02_sized_partial.
+
+(** the by-value nodes of a resolved path: every rooted one is the path of a struct / enum entry
+    whose rank is at most the rank of the resolved id *)
+Theorem C02_resolved_nodes_by_value :
+  forall r s rank, root_fresh s -> bv_ranked r s rank ->
+  forall fuel id is_field parents orig t,
+  resolve_rec r s fuel id is_field parents orig = Ok t ->
+  forall ptoks params, In (TPath ptoks params) (bv_subpaths t) ->
+  hd_error ptoks = Some (s_root s) ->
+  exists id' t', resolve r id' = Some t' /\ ptoks = rel_path (s_root s :: t_path t') /\
+                 is_composite_or_variant (t_def t') = true /\ (rank id' <= rank id)%nat.
+Proof. exact resolve_rec_bv. Qed.
+Print Assumptions C02_resolved_nodes_by_value.
